@@ -54,7 +54,10 @@ function mw_meta.__index(table, key)
     if modname == nil then return nil end
     local ret
     if type(modname) == "string" then
-        ret = require(modname)
+        -- The library modules are retained across invocations and pages:
+        -- give each (per-invocation) mw table its own copy, so that fields
+        -- set on mw.text etc. by one module are not seen by later ones
+        ret = _mw_clone(require(modname))
     elseif type(modname) == "function" then
         ret = modname(table)
     else
